@@ -2,7 +2,7 @@
    each followed by Print Assumptions; Examples show that hypotheses are satisfiable. *)
 From Coq Require Import ZArith List Bool PArith String.
 From Coq Require Import Sorting.Permutation.
-From C08 Require Import Model Proofs ProofsKind ProofsTrans ProofsTrans2 ProofsUnion ProofsMeet ProofsMeetComm ProofsJoin ProofsFuel ProofsKey ProofsF2 ProofsF2Sound ProofsF2Comp ProofsF2Eq ProofsF2Trans ProofsF2Union Statement.
+From C08 Require Import Model Proofs ProofsKind ProofsTrans ProofsTrans2 ProofsUnion ProofsMeet ProofsMeetComm ProofsJoin ProofsFuel ProofsKey ProofsF2 ProofsF2Sound ProofsF2Comp ProofsF2Eq ProofsF2Trans ProofsF2Union ProofsF2Meet Statement.
 From Gen Require Import SubtypeKind.
 Import ListNotations.
 
@@ -254,6 +254,22 @@ Theorem simplified_union_equiv_F2 : forall ct, wf_ct ct = true -> wf_gen ct = tr
     trueish (sub ct no_cache m k u u') /\ trueish (sub ct no_cache m k u' u).
 Proof. exact simplified_union_equiv_F2_thm. Qed.
 Print Assumptions simplified_union_equiv_F2.
+
+(* meet_types on F2 outside families X2 and X3 (covt t = true: no class with an invariant or contravariant parameter;
+   X3 contains the witness of meet_lower_refuted): the meet stays in the fragment and is a subtype of both arguments,
+   in either argument order (quantification over s and t) *)
+Theorem meet_lower_F2 : forall ct, wf_ct ct = true -> wf_gen ct = true -> wf_contr ct = true ->
+  forall n s t x, goodm ct s = true -> goodm ct t = true -> meet_types ct n s t = Some x ->
+  goodm ct x = true /\ forall m y, (is_subtype ct m x s = Some y -> y = true) /\ (is_subtype ct m x t = Some y -> y = true).
+Proof.
+  intros ct Hwf Hgen Hc n s t x Gs Gt H.
+  destruct (meet_spec2 ct Hwf Hgen Hc n n s t x Gs Gt H) as [Gx [L1 [L2 _]]].
+  destruct (goodm_parts ct _ Gx) as [Fx _]. destruct (goodm_parts ct _ Gs) as [Fs _]. destruct (goodm_parts ct _ Gt) as [Ft _].
+  split; auto. intros m y. split.
+  - exact (sub_complete2 ct Hwf no_cache (Hlk0 ct) false x s L1 Fx Fs K_sub eq_refl eq_refl eq_refl m y).
+  - exact (sub_complete2 ct Hwf no_cache (Hlk0 ct) false x t L2 Fx Ft K_sub eq_refl eq_refl eq_refl m y).
+Qed.
+Print Assumptions meet_lower_F2.
 
 (* answers on F2 only depend on the Type.__eq__ classes of the two types (UnionType.__eq__ = set equality of items) *)
 Theorem eq_invariant_F2 : forall ct, wf_ct ct = true ->
